@@ -306,3 +306,111 @@ func TestVerifC20(t *testing.T) {
 		fmt.Fprintln(w, o)
 	}
 }
+
+// ------------------------------------------------------------------ concurrent back-off
+//
+// bo <id> <seed> <ndead> <ms>: one driver; <ndead> devices whose address refuses connections (their
+// supervisors fail, back off and redial all the time), one device with a live reader whose address is flipped
+// (connections reset) while callers TrySend (retrying when the client was closed under them). The retry
+// policies keep their JITTER (only the time scale is shrunk), so every wait goes through the package's random
+// back-off computation from several goroutines at once. Own test function = own process: it replaces
+// retry.Quick/Slow before anything runs.
+func c20Backoff(id string, seed int64, ndead, ms int) string {
+	asyncCh := make(chan *dsModels.AsyncValues, 4)
+	d := &Driver{lc: c20Logger{}, asyncCh: asyncCh, svc: c20SDK{},
+		activeDevices: make(map[string]*LLRPDevice), done: make(chan struct{}), config: &ServiceConfig{}}
+	stopCollect := make(chan struct{})
+	go func() {
+		for {
+			select {
+			case <-asyncCh:
+			case <-stopCollect:
+				return
+			}
+		}
+	}()
+	defer close(stopCollect)
+	// a port nobody listens on
+	dl, err := net.Listen("tcp4", "127.0.0.1:0")
+	if err != nil {
+		return "!listen"
+	}
+	deadPort := dl.Addr().(*net.TCPAddr).Port
+	dl.Close()
+	dead := protocolMap{"tcp": {"host": "127.0.0.1", "port": strconv.Itoa(deadPort)}}
+	var readers [2]*c20Reader
+	var pm [2]protocolMap
+	for i := range readers {
+		ln, err := net.Listen("tcp4", "127.0.0.1:0")
+		if err != nil {
+			return "!listen"
+		}
+		defer ln.Close()
+		readers[i] = &c20Reader{ln: ln, ready: make(chan struct{})}
+		go readers[i].serve()
+		pm[i] = protocolMap{"tcp": {"host": "127.0.0.1", "port": strconv.Itoa(ln.Addr().(*net.TCPAddr).Port)}}
+	}
+	for i := 0; i < ndead; i++ {
+		if err := d.AddDevice(fmt.Sprintf("c20-%s-dead%d", id, i), dead, models.Unlocked); err != nil {
+			return "!adddevice " + err.Error()
+		}
+	}
+	live := "c20-" + id + "-live"
+	if err := d.AddDevice(live, pm[0], models.Unlocked); err != nil {
+		return "!adddevice " + err.Error()
+	}
+	deadline := time.Now().Add(time.Duration(ms) * time.Millisecond)
+	var wg sync.WaitGroup
+	var sends, fails atomic.Int64
+	for k := 0; k < 3; k++ {
+		wg.Add(1)
+		go func(k int) {
+			defer wg.Done()
+			for time.Now().Before(deadline) {
+				dev, _, err := d.getDevice(live, pm[0])
+				if err != nil {
+					return
+				}
+				ctx, cancel := context.WithTimeout(context.Background(), 40*time.Millisecond)
+				if dev.TrySend(ctx, &llrp.GetReaderConfig{}, &llrp.GetReaderConfigResponse{}) == nil {
+					sends.Add(1)
+				} else {
+					fails.Add(1)
+				}
+				cancel()
+			}
+		}(k)
+	}
+	wg.Add(1)
+	go func() {
+		defer wg.Done()
+		for r := 0; time.Now().Before(deadline); r++ {
+			time.Sleep(9 * time.Millisecond)
+			_ = d.UpdateDevice(live, pm[(r+1)%2], models.Unlocked)
+		}
+	}()
+	wg.Wait()
+	_ = d.Stop(false)
+	time.Sleep(10 * time.Millisecond)
+	return fmt.Sprintf("ok sends=%d fails=%d conns=%d/%d", sends.Load(), fails.Load(), readers[0].conns.Load(), readers[1].conns.Load())
+}
+
+func TestVerifC20Backoff(t *testing.T) {
+	lines, w, done := verifIO(t)
+	defer done()
+	oldQ, oldS := retry.Quick, retry.Slow
+	retry.Quick.BackOff, retry.Quick.Max = 200*time.Microsecond, 2*time.Millisecond
+	retry.Slow.BackOff, retry.Slow.Max = 300*time.Microsecond, 3*time.Millisecond
+	defer func() { retry.Quick, retry.Slow = oldQ, oldS }()
+	for _, line := range lines {
+		f := strings.Fields(line)
+		if len(f) < 5 || f[0] != "bo" {
+			fmt.Fprintln(w, "!badrequest")
+			continue
+		}
+		seed, _ := strconv.ParseInt(f[2], 10, 64)
+		nd, _ := strconv.Atoi(f[3])
+		ms, _ := strconv.Atoi(f[4])
+		fmt.Fprintln(w, c20Backoff(f[1], seed, nd, ms))
+	}
+}
